@@ -16,7 +16,13 @@ def install(ws, project, sts, version=0, rows=None, **kw):
     proj.deploy(ws, project, version, sts)
     r = ws.run('evolve', {'execute': True}, **kw)
     if r.status == 'ok' and rows:
-        rowmodel.load(ws.db_path(), rows)
+        import sqlite3
+        try:
+            rowmodel.load(ws.db_path(), rows)
+        except (sqlite3.IntegrityError, sqlite3.OperationalError) as e:
+            # generator rows rejected by the real schema (the row generator
+            # is stricter than needed but not perfect): not a verdict
+            r.rows_rejected = str(e)
     return r
 
 
@@ -89,7 +95,19 @@ def expected_index_origins(app, model):
     return out
 
 
-def index_origin(app, model, cols, unique):
+def index_shadowed(app, model, cols):
+    """True when the model spec declares two or more indexes over the same
+    column list (ignoring ordering, uniqueness and conditions)."""
+    def plain(cs):
+        return tuple(c.replace(' DESC', '') for c in cs)
+    n = sum(1 for (c, u, o) in expected_index_origins(app, model)
+            if plain(c) == plain(cols))
+    return n >= 2
+
+
+def index_origin(app, model, cols, unique, extra=False):
+    if cols and cols[0] == '<expr>':
+        return 'unknown' if extra else 'indexes'
     for (c, u, origin) in expected_index_origins(app, model):
         if tuple(c) == tuple(cols) and bool(u) == bool(unique):
             return origin
@@ -173,7 +191,9 @@ def schema_diffs(snap, fresh, state, apps):
             rec = {'kind': d[0], 'table': t, 'what': list(d[1:])}
             if d[0] in ('index_missing', 'index_extra') and m is not None \
                     and f is None:
-                rec['origin'] = index_origin(a, m, d[1], d[2])
+                rec['origin'] = index_origin(a, m, d[1], d[2],
+                                             extra=d[0] == 'index_extra')
+                rec['shadowed'] = index_shadowed(a, m, d[1])
             elif d[0] in ('check_missing', 'check_extra'):
                 rec['origin'] = ('column_check' if re.match(
                     r'^\w+ >= 0$', d[1] or '') else 'constraints')
